@@ -311,7 +311,7 @@ def run_m2d_case(ctx, case):
 
 def run(ctx):
     rng = ctx.rng(1)
-    nrep = 250 if ctx.tier == "quick" else 2500
+    nrep = 250 if ctx.tier == "quick" else 12000
     for it0 in range(nrep):
         it = it0 + ctx.shard * 7
         if ctx.out_of_time():
@@ -340,7 +340,7 @@ def run(ctx):
             if bad[j] >= -2 ** 31:
                 run_reject_case(ctx, {"kind": "reject", "index": bad, "values": v,
                                       "op": it % 4})
-    nm = 12 if ctx.tier == "quick" else 60
+    nm = 12 if ctx.tier == "quick" else 300
     for it in range(nm):
         if ctx.out_of_time():
             break
